@@ -160,7 +160,7 @@ PropSpec {
     rule: "the fault is a forged or corrupted packet. (b) enumerated: every byte string of length <= 2 (quick; <= 3 thorough, 16 843 009 strings) and seeded chunks of the 3-byte space as Input payload against three references, plus 1 M (quick) / 10 M (thorough) structure-aware mutations of real payloads (bit flips, truncation, insertion, spliced long varints), each decoded by the real codec under a panic trap and a counting allocator (payloads whose container declares > 512 MiB go to a child process). (a) live: 10-60 injections per run into runs of C01's space and into two-peer runs with a death, at seeded instants from the first handshake packet on: real Input packets replayed with a wrong number of statuses, a negative start frame, random / enumerated / bit-flipped / truncated / wrong-size payloads; any message kind with a wrong magic after the handshake; any message kind and raw garbage from unknown addresses. Oracles: no panic, no allocation > 16 MiB, C01's timeline check, twin run without the injections: identical sealed timelines, identical Synchronized/Disconnected/DesyncDetected events, same progress. Non-trivial = a sweep chunk, or a live run in which >= 5 forged datagrams were delivered; distinct = distinct executed-schedule hash; malformed packets may piggyback an acknowledgement ahead of the genuine one and a 'disconnected' status (dropped means dropped as a whole), negative start frames come with enough extra frames to cross frame 0 (incl. i32::MIN), forgeries are also built for links on which nothing was sent yet, and a well-formed input packet may come from a spectator's address",
     nontrivial: nt_c08,
     required_probes: &["payloads_decoded", "injected_datagrams", "twin_runs", "undecodable_datagrams", "forged_from_known_address", "forged_from_unknown_address"],
-    assumptions: &["a forged packet with the right address, the right magic and a well-formed envelope may refresh keep-alive timers; equality with the twin is demanded on inputs, states and connection events, not on timer-driven retransmission instants", "wrong-magic packets are injected only after the handshake with that address completed (before that the endpoint cannot know the right magic)"],
+    assumptions: &["a forged packet with the right address, the right magic and a well-formed envelope may refresh keep-alive timers; equality with the twin is demanded on inputs, states and connection events, not on timer-driven retransmission instants", "wrong-magic data packets are injected only after the handshake with that address completed (before that the endpoint cannot know the right magic); handshake requests, replies and keep-alives under a foreign magic are injected during the handshake as well (a peer restarted while connecting) - requests, which draw a reply, only in runs without a death"],
     twin: Some(crate::twins::c08_twin),
 },
 PropSpec {
@@ -205,7 +205,7 @@ PropSpec {
     quick_runs: 120_000,
     thorough_runs: 3_000_000,
     default_seed: 1212,
-    rule: "60 % handshake stress (2-3 peers, 0-2 spectators, loss up to 40 %, duplication up to 20 %, latency 0-300 ms with 100 % jitter, poll cadences 1-400 ms, never-drained sessions, stray SyncReplies with never-sent nonces from the right address and from strangers), 30 % silences around the notify delay and the timeout (+-200 ms) on a two-peer link, 10 % quiet pairs (two sessions that merely poll for 60 simulated seconds). Oracles: per-address event grammar automaton, handshake accounting (a reply matches iff its nonce was sent to that address and not matched before; Running iff every address has 5 matches; NotSynchronized iff not Running), poll-by-poll timer model, event queue <= 100. Non-trivial = >= 1 handshake completed and >= 1 fault or silence fired; distinct = distinct executed-schedule hash; one run in ten: a spectator that stops polling or whose packets are all lost is cut loose at the 128-input cap (60 s timeout) while a lossy, jittery link to the other player makes several frames confirm within one call; handshake links now reach 1.6 s one way (round trips far above the 200 ms retry interval); with a spectator attached half of the silences fall on the host -> spectator link (a spectator session has the same two timers)",
+    rule: "60 % handshake stress (2-3 peers, 0-2 spectators, loss up to 40 %, duplication up to 20 %, latency 0-300 ms with 100 % jitter, poll cadences 1-400 ms, never-drained sessions, stray SyncReplies with never-sent nonces from the right address and from strangers), 30 % silences around the notify delay and the timeout (+-200 ms) on a two-peer link, 10 % quiet pairs (two sessions that merely poll for 60 simulated seconds). Oracles: per-address event grammar automaton, handshake accounting (a reply matches iff its nonce was sent to that address and not matched before; Running iff every address has 5 matches; NotSynchronized iff not Running), poll-by-poll timer model, event queue <= 100. Non-trivial = >= 1 handshake completed and >= 1 fault or silence fired; distinct = distinct executed-schedule hash; one run in ten: a spectator that stops polling or whose packets are all lost is cut loose at the 128-input cap (60 s timeout) while a lossy, jittery link to the other player makes several frames confirm within one call; a third of those cap runs heal the spectator's way back within a few frames of the cap under a notify delay of 0.3-1.5 s (what was held up arrives right after the call that gave up); foreign-magic handshake requests from a known address, some before the genuine peer's first request; handshake links now reach 1.6 s one way (round trips far above the 200 ms retry interval); with a spectator attached half of the silences fall on the host -> spectator link (a spectator session has the same two timers)",
     nontrivial: nt_c12,
     required_probes: &["synchronized", "network_interrupted", "network_resumed", "disconnected", "drop_random", "duplicate_random", "injected_datagrams", "calls_not_synchronized"],
     assumptions: BASE_ASSUME,
@@ -253,7 +253,7 @@ PropSpec {
     quick_runs: 6000,
     thorough_runs: 150_000,
     default_seed: 1717,
-    rule: "C01's space (3-4 peers in half of the plain runs, a third with desync detection on, rollback and lockstep, spectators), plus a seventh of the runs with run-time delay changes (C11's plans) and a seventh with a really diverging game and desync detection (C09's plans); every plan is executed three times in one process with the same API calls, clock readings and per-link packet fates but different hash keys (single key vs a fresh key per map) and different handshake random numbers; request lists, final frames, per-address event sequences with their timestamps and the executed traffic schedule must be identical. Non-trivial = >= 1 rollback and >= 3 nodes or >= 3 players; distinct = distinct executed-schedule hash; two sevenths of the runs are C07's and C06's plans (a player dies or is disconnected while the host serves a spectator); one run in eleven is a C12 handshake-stress plan (when a session turns Running must not depend on hash order or handshake numbers)",
+    rule: "C01's space (3-4 peers in half of the plain runs, a third with desync detection on, rollback and lockstep, spectators), plus a seventh of the runs with run-time delay changes (C11's plans) and a seventh with a really diverging game and desync detection (C09's plans); every plan is executed three times in one process with the same API calls, clock readings and per-link packet fates but different hash keys (single key vs a fresh key per map) and different handshake random numbers; request lists, final frames, per-address event sequences with their timestamps and the executed traffic schedule must be identical. Non-trivial = >= 1 rollback and >= 3 nodes or >= 3 players; distinct = distinct executed-schedule hash; two sevenths of the runs are C07's and C06's plans (a player dies or is disconnected while the host serves a spectator); one run in eleven is a C12 handshake-stress plan (when a session turns Running must not depend on hash order or handshake numbers); one run in thirteen has scripted peers: both remotes of a three-peer session stop, then node 0 is handed their genuine last input packets with only the connection status changed - each reports the other's player gone, in one poll (whom node 0 drops on whose word must not depend on hash order)",
     nontrivial: nt_c17,
     required_probes: &["twin_runs", "rollbacks", "spectator_frames"],
     assumptions: BASE_ASSUME,
